@@ -70,6 +70,8 @@ struct Th {
     eintr_used: u32,
     weak_used: u32,
     panicked: bool,
+    /// the thread's last step exhausted a spin loop (a fair scheduler would now run somebody else)
+    yielded: bool,
 }
 
 struct Shared {
@@ -778,6 +780,7 @@ fn perform(mut s: StdGuard<'static, Shared>, ch: &Choice) -> StdGuard<'static, S
                     break;
                 }
             }
+            s.th[*t].yielded = spins > 1;
         }
         Choice::Spurious(t) | Choice::Eintr(t) => {
             let eintr = matches!(ch, Choice::Eintr(_));
@@ -812,30 +815,40 @@ fn perform(mut s: StdGuard<'static, Shared>, ch: &Choice) -> StdGuard<'static, S
 
 trait Chooser {
     /// index into `choices`, or None to stop following (switch to the default policy)
-    fn pick(&mut self, step: usize, choices: &[Choice], last: Option<usize>) -> Result<usize, String>;
+    fn pick(&mut self, step: usize, choices: &[Choice], last: Option<usize>, yielded: bool) -> Result<usize, String>;
     fn following(&self, _step: usize) -> bool {
         false
     }
 }
 
-fn default_pick(choices: &[Choice], last: Option<usize>) -> Option<usize> {
-    let grants: Vec<usize> = (0..choices.len()).filter(|i| !choices[*i].is_env()).collect();
+fn default_pick(choices: &[Choice], last: Option<usize>, yielded: bool) -> Option<usize> {
+    let grants: Vec<usize> =
+        (0..choices.len()).filter(|i| !choices[*i].is_env() && !matches!(choices[*i], Choice::GrantFail(_))).collect();
     if grants.is_empty() {
         return None;
     }
     if let Some(l) = last {
-        if let Some(i) = grants.iter().find(|i| choices[**i].thread() == l && !matches!(choices[**i], Choice::GrantFail(_))) {
+        if yielded {
+            // the running thread has just exhausted a spin loop: be fair, run the next other thread
+            if let Some(i) = grants.iter().find(|i| choices[**i].thread() > l) {
+                return Some(*i);
+            }
+            if let Some(i) = grants.iter().find(|i| choices[**i].thread() != l) {
+                return Some(*i);
+            }
+        }
+        if let Some(i) = grants.iter().find(|i| choices[**i].thread() == l) {
             return Some(*i);
         }
     }
-    grants.iter().copied().find(|i| !matches!(choices[*i], Choice::GrantFail(_)))
+    grants.first().copied()
 }
 
 struct Follow {
     sched: Vec<Choice>,
 }
 impl Chooser for Follow {
-    fn pick(&mut self, step: usize, choices: &[Choice], _last: Option<usize>) -> Result<usize, String> {
+    fn pick(&mut self, step: usize, choices: &[Choice], _last: Option<usize>, _yielded: bool) -> Result<usize, String> {
         let want = &self.sched[step];
         if let Some(i) = choices.iter().position(|c| c == want) {
             return Ok(i);
@@ -882,6 +895,7 @@ fn run_once(spec: &RunSpec, chooser: &mut dyn Chooser, follow_len: usize) -> Run
                 eintr_used: 0,
                 weak_used: 0,
                 panicked: false,
+                yielded: false,
             })
             .collect();
         s.th[0].state = TState::Finished;
@@ -920,16 +934,17 @@ fn run_once(spec: &RunSpec, chooser: &mut dyn Chooser, follow_len: usize) -> Run
             break;
         }
         let following = diverged.is_none() && step < follow_len;
+        let yielded = last.is_some_and(|l| s.th[l].yielded);
         let idx = if diverged.is_none() && (following || follow_len == usize::MAX) {
-            match chooser.pick(step, &choices, last) {
+            match chooser.pick(step, &choices, last, yielded) {
                 Ok(i) => Some(i),
                 Err(why) => {
                     diverged = Some((step, why));
-                    default_pick(&choices, last)
+                    default_pick(&choices, last, yielded)
                 }
             }
         } else {
-            default_pick(&choices, last)
+            default_pick(&choices, last, yielded)
         };
         let Some(idx) = idx else { break };
         let ch = choices[idx].clone();
@@ -1039,20 +1054,28 @@ struct Dfs {
     preempts: u32,
 }
 impl Dfs {
-    fn allowed(&self, choices: &[Choice], last: Option<usize>) -> Vec<usize> {
+    /// Is choosing `c` a preemption?  Switching away from a thread that can still run is one,
+    /// unless that thread has just exhausted a spin loop (then the switch is a fair yield).
+    fn is_preempt(c: &Choice, choices: &[Choice], last: Option<usize>, yielded: bool) -> bool {
         let last_enabled = last.is_some_and(|l| choices.iter().any(|c| !c.is_env() && c.thread() == l));
+        last_enabled && !yielded && (c.is_env() || Some(c.thread()) != last)
+    }
+    fn allowed(&self, choices: &[Choice], last: Option<usize>, yielded: bool) -> Vec<usize> {
         let mut v: Vec<usize> = Vec::new();
-        // non-preempting choices first
+        // free choices first; after a yield the other threads come before the spinner
         for (i, c) in choices.iter().enumerate() {
-            let pre = last_enabled && (c.is_env() || Some(c.thread()) != last);
-            if !pre {
+            if !Self::is_preempt(c, choices, last, yielded) && !(yielded && Some(c.thread()) == last) {
+                v.push(i);
+            }
+        }
+        for (i, c) in choices.iter().enumerate() {
+            if !Self::is_preempt(c, choices, last, yielded) && yielded && Some(c.thread()) == last {
                 v.push(i);
             }
         }
         if self.preempts < self.preempt_bound {
             for (i, c) in choices.iter().enumerate() {
-                let pre = last_enabled && (c.is_env() || Some(c.thread()) != last);
-                if pre {
+                if Self::is_preempt(c, choices, last, yielded) {
                     v.push(i);
                 }
             }
@@ -1061,8 +1084,8 @@ impl Dfs {
     }
 }
 impl Chooser for Dfs {
-    fn pick(&mut self, step: usize, choices: &[Choice], last: Option<usize>) -> Result<usize, String> {
-        let allowed = self.allowed(choices, last);
+    fn pick(&mut self, step: usize, choices: &[Choice], last: Option<usize>, yielded: bool) -> Result<usize, String> {
+        let allowed = self.allowed(choices, last, yielded);
         if allowed.is_empty() {
             return Err("no allowed choice".into());
         }
@@ -1075,9 +1098,7 @@ impl Chooser for Dfs {
         };
         self.depth_seen = step + 1;
         let idx = allowed[k];
-        let c = &choices[idx];
-        let last_enabled = last.is_some_and(|l| choices.iter().any(|c| !c.is_env() && c.thread() == l));
-        if last_enabled && (c.is_env() || Some(c.thread()) != last) {
+        if Self::is_preempt(&choices[idx], choices, last, yielded) {
             self.preempts += 1;
         }
         Ok(idx)
@@ -1089,6 +1110,8 @@ fn mode_explore(path: &str) {
     let spec = spec_of(&v);
     let bound = v.get("preempt").and_then(Value::as_u64).unwrap_or(2) as u32;
     let max_runs = v.get("max_runs").and_then(Value::as_u64).unwrap_or(1000) as usize;
+    let max_secs = v.get("max_secs").and_then(Value::as_f64).unwrap_or(120.0);
+    let t0 = std::time::Instant::now();
     let stdout = std::io::stdout();
     let mut out = std::io::BufWriter::with_capacity(1 << 20, stdout.lock());
     let mut dfs = Dfs { stack: Vec::new(), depth_seen: 0, preempt_bound: bound, preempts: 0 };
@@ -1114,7 +1137,7 @@ fn mode_explore(path: &str) {
             complete = true;
             break;
         }
-        if run >= max_runs {
+        if run >= max_runs || t0.elapsed().as_secs_f64() > max_secs {
             break;
         }
     }
@@ -1127,7 +1150,7 @@ struct Random {
     env_pct: u64,
 }
 impl Chooser for Random {
-    fn pick(&mut self, _step: usize, choices: &[Choice], last: Option<usize>) -> Result<usize, String> {
+    fn pick(&mut self, _step: usize, choices: &[Choice], last: Option<usize>, _yielded: bool) -> Result<usize, String> {
         let envs: Vec<usize> = (0..choices.len()).filter(|i| choices[*i].is_env() || matches!(choices[*i], Choice::GrantFail(_))).collect();
         let norm: Vec<usize> = (0..choices.len()).filter(|i| !envs.contains(i)).collect();
         if !envs.is_empty() && (norm.is_empty() || self.rng.below(100) < self.env_pct) {
@@ -1152,7 +1175,12 @@ fn mode_random(path: &str) {
     let seed = v.get("seed").and_then(Value::as_u64).unwrap_or_else(vharness::seed);
     let stdout = std::io::stdout();
     let mut out = std::io::BufWriter::with_capacity(1 << 20, stdout.lock());
+    let max_secs = v.get("max_secs").and_then(Value::as_f64).unwrap_or(120.0);
+    let t0 = std::time::Instant::now();
     for run in 0..runs {
+        if t0.elapsed().as_secs_f64() > max_secs {
+            break;
+        }
         let mut ch = Random { rng: Rng::new(seed.wrapping_mul(1_000_003).wrapping_add(run as u64)), env_pct: 8 };
         let r = run_once(&spec, &mut ch, usize::MAX);
         emit_run(&mut out, run, &spec, "null", "random", &r);
